@@ -62,6 +62,12 @@ func runC13(r *Run) {
 	engine := pickEngine(r, cfg)
 	nOps := 1 + cfg.Intn(30)
 	clk := NewClock(1_700_000_000_000_777+int64(cfg.Intn(5000)), 1_700_000_000_000_000_000)
+	if cfg.Intn(3) == 0 {
+		// the server clock moves on by 1-3 ms every time it is looked at: one request = one
+		// instant (the first look), however many rules it carries
+		clk.ServerTick = int64(1+cfg.Intn(3)) * 1000
+		r.Probe("c13.clock_moves_between_reads")
+	}
 	gen := &btGen{fams: []string{"f1", "f12"}, unknown: "nofam"}
 	const tbl = "projects/p/instances/i/tables/t"
 	rows := []string{"r", "r\x00", "s"}
